@@ -272,6 +272,78 @@ fn judge_program(text: &str, expected_stdout: Option<&str>, expected: Option<&Ex
     judge_program_files(text, None, expected_stdout, expected, key, labels, nt, ctx)
 }
 
+/// Two or three packages declare types of the same name (enums sharing variant names, structs),
+/// every package builds, matches and shows its own; a generic enum of Main is instantiated at the
+/// same-named types of two packages. All of these are distinct entities: the Go must build
+/// (no redeclared type, no switch on the wrong struct) and print what the source says.
+fn make_twin_types(bytes: &[u8]) -> Case {
+    let mut d = Dec::new(bytes);
+    let tname = ["Color", "Point", "Shape", "T"][d.below(4)];
+    let three = d.bool();
+    let generic = d.bool();
+    let pkgs: Vec<&str> = if three { vec!["Geo", "Ui", "Main"] } else { vec!["Geo", "Main"] };
+    let mut files: Vec<(String, String)> = vec![];
+    let mut want = String::new();
+    let mut main = String::from("package Main\n");
+    for p in &pkgs {
+        if *p != "Main" {
+            main.push_str(&format!("import {p}\n"));
+        }
+    }
+    main.push('\n');
+    let mut main_body = String::new();
+    let mut labels = vec![format!("twin:{}", if three { "three-packages" } else { "two-packages" })];
+    for (k, p) in pkgs.iter().enumerate() {
+        // an enum with the shared variant names Red / Green, and a struct of the same name in the next family
+        let is_enum = d.chance(170);
+        let tag = k as i32 + 1;
+        let mut text = String::new();
+        let q = if *p == "Main" { String::new() } else { format!("{p}::") };
+        if is_enum {
+            labels.push("twin:enum".into());
+            text.push_str(&format!("enum {tname} {{ Red, Green(int32), Only{p}(string) }}\n"));
+            text.push_str(&format!(
+                "fn show_{l}(c: {tname}) -> string {{\n    match c {{\n        {tname}::Red => \"{p}.Red\",\n        {tname}::Green(n) => \"{p}.Green\" + int32_to_string(n),\n        {tname}::Only{p}(s) => \"{p}.Only\" + s,\n    }}\n}}\n",
+                l = p.to_lowercase()
+            ));
+            text.push_str(&format!("fn mk_{l}(n: int32) -> {tname} {{ if n > {tag} {{ {tname}::Green(n) }} else {{ {tname}::Red }} }}\n", l = p.to_lowercase()));
+            main_body.push_str(&format!("    let _ = string_println({q}show_{l}({q}mk_{l}(0)));\n", l = p.to_lowercase()));
+            main_body.push_str(&format!("    let _ = string_println({q}show_{l}({q}mk_{l}(9)));\n", l = p.to_lowercase()));
+            main_body.push_str(&format!("    let _ = string_println({q}show_{l}({q}{tname}::Only{p}(\"x\")));\n", l = p.to_lowercase()));
+            want.push_str(&format!("{p}.Red\n{p}.Green9\n{p}.Onlyx\n"));
+        } else {
+            labels.push("twin:struct".into());
+            text.push_str(&format!("struct {tname} {{ a: int32, tag: int32 }}\n"));
+            text.push_str(&format!("fn show_{l}(c: {tname}) -> string {{ \"{p}.\" + int32_to_string(c.a + c.tag) }}\n", l = p.to_lowercase()));
+            text.push_str(&format!("fn mk_{l}(n: int32) -> {tname} {{ {tname} {{ a: n, tag: {tag} }} }}\n", l = p.to_lowercase()));
+            main_body.push_str(&format!("    let _ = string_println({q}show_{l}({q}mk_{l}(10)));\n", l = p.to_lowercase()));
+            want.push_str(&format!("{p}.{}\n", 10 + tag));
+        }
+        if *p == "Main" {
+            main.push_str(&text);
+        } else {
+            files.push((format!("{p}/lib.gom"), format!("package {p}\n\n{text}")));
+        }
+    }
+    if generic {
+        // one generic enum at the same-named types of two packages
+        labels.push("twin:generic-instances".into());
+        main.push_str("enum Maybe[T] { Just(T), Nothing }\n");
+        main.push_str("fn has[T](m: Maybe[T]) -> string { match m { Maybe::Just(_) => \"just\", Maybe::Nothing => \"nothing\" } }\n");
+        for p in &pkgs {
+            let q = if *p == "Main" { String::new() } else { format!("{p}::") };
+            let l = p.to_lowercase();
+            main_body.push_str(&format!("    let m_{l}: Maybe[{q}{tname}] = Maybe::Just({q}mk_{l}(1));\n    let n_{l}: Maybe[{q}{tname}] = Maybe::Nothing;\n"));
+            main_body.push_str(&format!("    let _ = string_println(has(m_{l}) + has(n_{l}));\n"));
+            want.push_str("justnothing\n");
+        }
+    }
+    main.push_str(&format!("fn main() {{\n{main_body}    ()\n}}\n"));
+    files.push(("main.gom".into(), main));
+    let text: String = files.iter().map(|(p, t)| format!("// ---- {p}\n{t}")).collect();
+    Case::new(json!({"twin": true, "text": text, "files": goml::files_to_json(&files), "stdout": want, "labels": labels}))
+}
+
 #[allow(clippy::too_many_arguments)]
 fn judge_program_files(text: &str, files: Option<&Value>, expected_stdout: Option<&str>, expected: Option<&Expected>, key: u64, labels: Vec<String>, nt: bool, ctx: &mut Ctx) -> CaseOut {
     let res = match files {
@@ -341,6 +413,7 @@ impl Check for C19 {
         vec![
             PhaseSpec { name: "mangle", cases: CLASSES.len() as u64, max_bytes: 0, exhaustive: true },
             PhaseSpec { name: "directed", cases: DIRECTED.len() as u64, max_bytes: 0, exhaustive: true },
+            PhaseSpec { name: "twin-types", cases: tier.pick(600, 8_000), max_bytes: 24, exhaustive: false },
             PhaseSpec { name: "renamed-small", cases: tier.pick(40_000, 300_000), max_bytes: 200, exhaustive: false },
             PhaseSpec { name: "renamed", cases: tier.pick(60_000, 500_000), max_bytes: 500, exhaustive: false },
         ]
@@ -348,6 +421,7 @@ impl Check for C19 {
     fn make(&self, phase: &str, index: u64, bytes: &[u8], ctx: &mut Ctx) -> Case {
         match phase {
             "mangle" => Case::new(json!({"class": CLASSES[index as usize], "big": ctx.tier == Tier::Thorough})),
+            "twin-types" => make_twin_types(bytes),
             "directed" => {
                 let (id, gate, items, body, want) = DIRECTED[index as usize];
                 let gated = !gate.is_empty() && ctx.gated(gate);
@@ -385,6 +459,8 @@ impl Check for C19 {
                 cfg.focus = [Focus::None, Focus::Generics, Focus::Closures, Focus::Scopes, Focus::Traits][(index % 5) as usize];
                 // traits, methods and trait objects with names the back end must escape
                 cfg.traits = cfg.focus == Focus::Traits || (index / 5) % 3 == 0;
+                // results that are computed and dropped: a call of a user function must stay whatever it is called
+                cfg.discards = true;
                 let p = gen_program(&mut d, cfg, ctx);
                 let text = render(&p);
                 let expected = Expected::of(&p).to_json();
@@ -410,6 +486,11 @@ impl Check for C19 {
         }
         let text = input["text"].as_str().unwrap_or("");
         let key = fnv_str(text);
+        if input.get("twin").is_some() {
+            let mut labels: Vec<String> = input["labels"].as_array().map(|a| a.iter().filter_map(|x| x.as_str().map(String::from)).collect()).unwrap_or_default();
+            labels.push("twin-types".into());
+            return judge_program_files(text, Some(&input["files"]), input["stdout"].as_str(), None, key, labels, true, ctx);
+        }
         if let Some(id) = input["directed"].as_str() {
             if input["gated"].as_bool() == Some(true) {
                 return CaseOut::discard(&format!("gated:{}", input["gate"].as_str().unwrap_or("")));
@@ -439,7 +520,7 @@ impl Check for C19 {
         ]
     }
     fn required_labels(&self, _tier: Tier) -> Vec<&'static str> {
-        vec!["mangle", "directed", "names:hostile-item", "names:hostile-field", "names:hostile-local"]
+        vec!["mangle", "directed", "names:hostile-item", "names:hostile-field", "names:hostile-local", "twin:generic-instances", "twin:enum", "names:hostile-method"]
     }
     fn max_discard_fraction(&self) -> f64 {
         0.25
